@@ -649,6 +649,10 @@ Proof.
     { destruct (get_number 0 99 2 s) as [[v r]|]; [eapply IH; exact H | reflexivity]. }
     destruct (c =? 37).
     { destruct (match_char 37 s); [eapply IH; exact H | reflexivity]. }
+    destruct ((c =? 98) || (c =? 66) || (c =? 104)).
+    { destruct (match_names month_names 0 s) as [[v r]|]; [eapply IH; exact H | reflexivity]. }
+    destruct ((c =? 97) || (c =? 65)).
+    { destruct (match_names wday_names 0 s) as [[v r]|]; [eapply IH; exact H | reflexivity]. }
     discriminate.
   - discriminate.
 Qed.
